@@ -102,6 +102,10 @@ CFGS = {
                  MinRs="{0}", MutRs="{3}", MinDists="{0}", TlLists="NoLists", MinDurs="{0}", TrackMethods="MethodsAll", Images="ImagesA",
                  ImgLists="ImgListsA", LocWidths="WidthsA", MaxDrops=40, MaxEms=10, MaxRefs=3, MaxEv=3,
                  MaxTcs=2, MaxTrks=8, MaxLen=3, Depth=5, Ops="OpsSys"),
+    # one class, two layouts: perturbed droplets with different numbers of amplitudes
+    "pl3": dict(InitVals="ValsPl", EmLists="ListsPl", EvLists="NoLists", TimeLists="NoLists", Times="{0}",
+                MinRs="{0}", MutRs="{3}", MinDists="{0}", TlLists="NoLists", MinDurs="{0}", MaxDrops=14, MaxEms=3, MaxRefs=5, MaxEv=3,
+                MaxTcs=0, MaxTrks=0, MaxLen=3, Depth=3, Ops="OpsPl"),
     # track list files
     "tfq": dict(InitVals="ValsTr", EmLists="ListsTfQ", EvLists="NoLists", TimeLists="TimeListsTfQ", Times="{4}",
                 MinRs="{0}", MutRs="{3}", MinDists="{0}", TlLists="TlListsTfQ", MinDurs="{0}", MaxDrops=20, MaxEms=0, MaxRefs=4, MaxEv=0,
@@ -113,7 +117,7 @@ CFGS = {
                 MinRs="{0}", MutRs="{3}", MinDists="{0}", TlLists="TlListsA", MinDurs="{0}", MaxDrops=20, MaxEms=0, MaxRefs=5, MaxEv=0,
                 MaxTcs=0, MaxTrks=5, MaxLen=3, Depth=5, Ops="OpsTf"),
 }
-QUICK = ["em3", "df3", "tc4", "tr3", "tl3", "io3", "tkq", "tfq", "sysq"]
+QUICK = ["em3", "df3", "tc4", "tr3", "tl3", "io3", "tkq", "tfq", "sysq", "pl3"]
 THOROUGH = ["em4", "df4", "em5", "tc5", "tr4", "tl4", "io4", "tk4", "tf4", "tk5", "sys4"]
 
 
@@ -135,7 +139,8 @@ def cfg_text(name: str, observe: str = "ObservePrint") -> str:
 # ---------------------------------------------------------------- the real world
 # the images of MC_Collections.tla (ImagesA) / MC_TraceCollections.tla
 IMAGES_A = [[0, 1, 1, 0, 0, 1, 0, 0], [0, 0, 1, 1, 0, 1, 1, 0], [0, 0, 0, 0, 0, 0, 0, 0], [1, 1, 1, 0, 0, 0, 0, 1]]
-KIND_CLS = {"S1": ("SphericalDroplet", 1), "D1": ("DiffuseDroplet", 1), "S2": ("SphericalDroplet", 2)}
+KIND_CLS = {"S1": ("SphericalDroplet", 1), "D1": ("DiffuseDroplet", 1), "S2": ("SphericalDroplet", 2),
+            "P2a": ("PerturbedDroplet2D", 2), "P2b": ("PerturbedDroplet2D", 2)}
 
 
 def make_droplet(v):
@@ -146,6 +151,10 @@ def make_droplet(v):
         return SphericalDroplet(np.array([x], float), float(v["r"]))
     if v["k"] == "S2":
         return SphericalDroplet(np.array([x, 0.0], float), float(v["r"]))
+    if v["k"] in ("P2a", "P2b"):
+        from droplets.droplets import PerturbedDroplet2D
+
+        return PerturbedDroplet2D(np.array([x, 0.0], float), float(v["r"]), None, np.zeros(2 if v["k"] == "P2a" else 4))
     return DiffuseDroplet(np.array([x], float), float(v["r"]), None if v["w"] < 0 else float(v["w"]))
 
 
@@ -440,6 +449,8 @@ def _layout_name(dt):
         return "S1" if dim == 1 else "S2"
     if names == ("position", "radius", "interface_width") and dim == 1:
         return "D1"
+    if names == ("position", "radius", "interface_width", "amplitudes") and dim == 2:
+        return {2: "P2a", 4: "P2b"}.get(dt["amplitudes"].shape[0], f"?amplitudes{dt['amplitudes'].shape}")
     return f"?{names}{dim}"
 
 
@@ -550,7 +561,7 @@ def compare(w: World, t, q, fails: list) -> None:
     for emid, em in ems.items():
         mem = t["ems"][emid - 1]["mem"]
         _definitions(em, fails)
-        if any(t["drops"][d - 1]["k"] == "S2" for d in mem):
+        if any(KIND_CLS[t["drops"][d - 1]["k"]][1] != 1 for d in mem):
             continue
         _queries(em, q["em"][emid - 1], fails)
     for k, tr in enumerate(t["trks"]):
